@@ -15,7 +15,7 @@ if __name__ == "__main__":
         "C17", ["C17"], THEOREMS, {"nops": 6, "deep": 0.6}, 150, 6000,
         ["callbacks are observed through user methods that append to a log, assign a fixed value to a non-random field of their "
          "class (pre) and read every scalar of the tree (post)",
-         "lists of objects are not generated"],
+         "lists of objects are generated (1-2 elements, random or non-random list)"],
         RULE + "; pre_randomize of about half of the classes assigns a value to a non-random field: every formula of the call must "
         "carry that value as its constant and the field must still hold it afterwards; post_randomize reads every scalar of the tree: "
         "what it sees must equal the values after the call",
